@@ -269,6 +269,10 @@ type World struct {
 
 var accounts = []string{"A", "B"}
 
+// the txfees module accounts taker fees pass through (x/txfees/types/keys.go); the first is where chargeTakerFee sends them
+var feeAcctNames = []string{txfeestypes.TakerFeeCollectorName, txfeestypes.NonNativeTxFeeCollectorName, txfeestypes.TakerFeeStakersName,
+	txfeestypes.TakerFeeCommunityPoolName, txfeestypes.TakerFeeBurnName, txfeestypes.TakerFeeStakingRewardsBuffer}
+
 func other(a string) string {
 	if a == "A" {
 		return "B"
@@ -324,8 +328,7 @@ func NewWorld(cfg Config, r *core.Result) *World {
 	w.Collector = authtypes.NewModuleAddress(txfeestypes.TakerFeeCollectorName)
 	w.Community = authtypes.NewModuleAddress(distrtypes.ModuleName)
 	w.GammMod = authtypes.NewModuleAddress(gammtypes.ModuleName)
-	for _, n := range []string{txfeestypes.TakerFeeCollectorName, txfeestypes.NonNativeTxFeeCollectorName, txfeestypes.TakerFeeStakersName,
-		txfeestypes.TakerFeeCommunityPoolName, txfeestypes.TakerFeeBurnName, txfeestypes.TakerFeeStakingRewardsBuffer} {
+	for _, n := range feeAcctNames {
 		w.FeeAccts = append(w.FeeAccts, authtypes.NewModuleAddress(n))
 	}
 	w.Creation = a.PoolManagerKeeper.GetParams(ctx).PoolCreationFee
